@@ -14,6 +14,8 @@ var engines = map[string]sim.Engine{
 			execsim.RunC10(env)
 		case "C13":
 			execsim.RunC13(env)
+		case "C12":
+			execsim.RunC12(env)
 		default:
 			panic("execsim: unknown property " + env.Prop)
 		}
